@@ -17,7 +17,7 @@ func init() {
 		ID: "C17", Run: runC17, QuickRuns: 200000, ThoroughRuns: 8000000,
 		Rule:       "Each run: (A, decided) a record or value tree is delivered by a simulated Source that fails with one of five injected error values (io.EOF, io.ErrUnexpectedEOF, a comparable custom error, a pointer-typed error, a wrapped error) at a tape-chosen offset inside an item, with per-run fragmentation; the failing thrift.BufferReader call must return an error for which errors.Is(err, injected) holds; (B, by-product) the malformed-input generator of C08 feeds Binary.Skip, the Binary scalar/string/header readers and ReadMessageBegin, whose failures must be protocol exceptions with the type id the reference classifier allows for the first failing node.",
 		Components: realComponents,
-		Probes:     []string{"stream_error.io.EOF", "stream_error.io.ErrUnexpectedEOF", "stream_error.custom", "stream_error.pointer-typed", "stream_error.wrapped", "cause.INVALID_DATA", "cause.NEGATIVE_SIZE", "cause.BAD_VERSION", "cause.DEPTH_LIMIT", "skip_failed_on_source_error"},
+		Probes:     []string{"stream_error.io.EOF", "stream_error.io.ErrUnexpectedEOF", "stream_error.custom", "stream_error.pointer-typed", "stream_error.wrapped", "stream_error.wrapped-EOF", "stream_error.pointer-typed-wrapping-EOF", "cause.INVALID_DATA", "cause.NEGATIVE_SIZE", "cause.BAD_VERSION", "cause.DEPTH_LIMIT", "skip_failed_on_source_error"},
 	})
 }
 
@@ -48,6 +48,15 @@ func checkIs(c *sim.Ctx, site string, err, injected error, what string) {
 	}
 	if !errors.Is(err, injected) {
 		c.Fail("ERRTYPE", site, sim.F{"injected": errKind(injected), "stream": true}, "%s failed with %v (%T), which does not match the source's error %v under errors.Is", what, err, err, injected)
+	}
+	if _, ok := injected.(*sim.PtrEOFError); ok {
+		var pe *sim.PtrEOFError
+		if !errors.As(err, &pe) || pe != injected {
+			c.Fail("ERRTYPE", site, sim.F{"injected": "pointer-typed-wrapping-EOF/As", "stream": true}, "%s failed with %v: the source's own error value is no longer reachable with errors.As", what, err)
+		}
+	}
+	if (injected == sim.ErrWrappedEOF || errKind(injected) == "pointer-typed-wrapping-EOF") && !errors.Is(err, io.EOF) {
+		c.Fail("ERRTYPE", site, sim.F{"injected": "wrapped-EOF-chain", "stream": true}, "%s failed with %v: io.EOF, which the source's error wraps, is no longer reachable", what, err)
 	}
 	if injected == sim.ErrWrapped && !errors.Is(err, io.ErrClosedPipe) {
 		c.Fail("ERRTYPE", site, sim.F{"injected": "wrapped-chain", "stream": true}, "%s failed with %v: the cause chain of the source's error (io.ErrClosedPipe) is no longer reachable", what, err)
@@ -290,10 +299,17 @@ func inMemoryClause(c *sim.Ctx, st *sim.Stream) {
 		// message-begin: truncation and version
 		name := ref.GenScalar(st, ref.TString, &ref.GenOpts{}).Bin
 		enc := ref.EncodeMessageBegin(name, int32(st.Choose(5)), int32(st.Choose(1000)))
-		if st.Chance(1, 2) {
-			enc = enc[:st.Choose(len(enc))]
-		} else {
+		// truncation, a damaged version word, or both
+		mode := st.Pick(2, 2, 3)
+		if mode != 0 {
 			enc[st.Choose(2)] ^= byte(1 << uint(st.Choose(8)))
+		}
+		if mode != 1 {
+			cut := st.Choose(len(enc))
+			if st.Chance(1, 2) && len(enc) > 9 {
+				cut = 3 + st.Choose(7) // around the first word and the name-length word
+			}
+			enc = enc[:cut]
 		}
 		env := ref.ParseMessageBegin(enc)
 		var err error
